@@ -13,6 +13,9 @@ import Rdm.Lemmas.UtilityKeys
 import Rdm.Lemmas.UtilityParse
 import Rdm.Lemmas.UtilityChoquet
 import Rdm.Lemmas.UtilityCapacities
+import Rdm.Lemmas.E2EDecide
+import Rdm.Lemmas.E2EUtility
+import Rdm.Lemmas.E2EExamples
 namespace Rdm.Props.C03
 open Rdm
 
@@ -173,5 +176,215 @@ theorem rounding_error (x : Rat) : |round8 x - x| ≤ 1 / (2 * 10 ^ 8) := round8
 /-- the constants this property depends on were re-read from the working tree on this run (none of
     them fell back to its pinned value because its declaration could not be located) -/
 theorem facts_fresh : (Facts.staleFacts.all fun n => !["choquetEps", "roundPrecision", "criteriaSeparator", "critGain", "paramWeights"].contains n) = true := by decide
+
+/-! ## END TO END: the whole `MakeDecision` (model `decideWith` / `Rdm.decide` of Model/Decide.lean)
+
+"With and without preceding biases (the value must be the aggregate of the post-bias values and post-bias
+parameters)": for every request, bias list and stream function, the value reported for an alternative is the
+1e-8 rounding (`round8`, within 5·10⁻⁹ of its argument by `rounding_error`) of the method's defining formula
+evaluated on the values that alternative has in the state that reached `Evaluate` (`resp.final.co`) with the
+parameters of that state (`resp.final.mp`) — both as the biases left them.  Every entry of `result` is such an
+alternative and every considered alternative has such an entry (with `choseToMake` distinct: exactly one, by
+`Props.C01.decideWith_wellformed`).  Helper lemmas: `Rdm/Lemmas/E2EDecide.lean`, `Rdm/Lemmas/E2EUtility.lean`. -/
+
+/-- **OWA, end to end**: the parameters that reach `Evaluate` are OWA weights `wc`; every reported value is
+    `round8 (Σ ascending weights × ascending values)` of a considered alternative of the final state (which
+    then has as many values as there are weights), and every considered alternative is reported so -/
+theorem decideWith_owa_value (exp : Rat → Rat) (aspOrder : List (WCrit Rat) → List (WCrit Rat))
+    (req : Request Rat) (g : Int → Draws Rat) (resp : Response Rat) (wc₀ : List (WCrit Rat))
+    (h : decideWith exp aspOrder req g = .ok resp) (hmp : req.mp = some (.owa wc₀)) :
+    ∃ wc, resp.final.mp = .owa wc ∧
+      (∀ e ∈ resp.result, ∃ a ∈ resp.final.co, a.id = e.id ∧ a.vals.length = wc.length ∧
+        e.ev = .util (round8 (Spec.C03.owaSpec (a.vals.map (·.2)) (wc.map (·.w))))) ∧
+      (∀ a ∈ resp.final.co, ∃ e ∈ resp.result, e.id = a.id ∧
+        e.ev = .util (round8 (Spec.C03.owaSpec (a.vals.map (·.2)) (wc.map (·.w))))) := by
+  obtain ⟨htag, _, scored, hs, hres⟩ := e2e_decideWith_utility h hmp rfl
+  obtain ⟨wc, hwc⟩ := e2eTag_owa htag
+  obtain ⟨v1, v2⟩ := e2e_utility_values hs hres
+  have key : ∀ (a : Alt Rat) (v : Rat), utilityValueOf resp.final.mp a = .ok v →
+      a.vals.length = wc.length ∧ v = Spec.C03.owaSpec (a.vals.map (·.2)) (wc.map (·.w)) := by
+    intro a v hv
+    rw [hwc] at hv
+    have hlen : a.vals.length = wc.length := by
+      by_contra hne
+      simp [utilityValueOf, owa, hne, throw, throwThe, MonadExceptOf.throw] at hv
+    refine ⟨hlen, ?_⟩
+    have := owa_eq_spec a wc hlen
+    simp only [utilityValueOf] at hv
+    rw [this] at hv
+    exact (Except.ok.inj hv).symm
+  refine ⟨wc, hwc, ?_, ?_⟩
+  · intro e he
+    obtain ⟨a, ha, v, hid, hv, hev⟩ := v1 e he
+    obtain ⟨hl, rfl⟩ := key a v hv
+    exact ⟨a, ha, hid, hl, hev⟩
+  · intro a ha
+    obtain ⟨v, hv, e, he, hid, hev⟩ := v2 a ha
+    obtain ⟨_, rfl⟩ := key a v hv
+    exact ⟨e, he, hid, hev⟩
+
+/-- **Choquet integral, end to end**: the parameters that reach `Evaluate` are a capacity table `w`; every
+    reported value is `round8` of the specification's grouped textbook sum `Spec.C03.choquetSpec` (values within
+    the code's tolerance of the first value of a run are tied with it — the oracle the property prescribes) of a
+    considered alternative of the final state, all capacities it needs being present; and every considered
+    alternative is reported so.  (Ungrouped textbook form: `choquet_eq_textbook_of_capacities`.) -/
+theorem decideWith_choquet_value (exp : Rat → Rat) (aspOrder : List (WCrit Rat) → List (WCrit Rat))
+    (req : Request Rat) (g : Int → Draws Rat) (resp : Response Rat) (w₀ : KMap Rat) (cs₀ : List (Crit Rat))
+    (h : decideWith exp aspOrder req g = .ok resp) (hmp : req.mp = some (.choquet w₀ cs₀)) :
+    ∃ w cs, resp.final.mp = .choquet w cs ∧
+      (∀ e ∈ resp.result, ∃ a ∈ resp.final.co, a.id = e.id ∧
+        ∃ v, Spec.C03.choquetSpec choquetEpsOf a w = some v ∧ e.ev = .util (round8 v)) ∧
+      (∀ a ∈ resp.final.co, ∃ v, Spec.C03.choquetSpec choquetEpsOf a w = some v ∧
+        ∃ e ∈ resp.result, e.id = a.id ∧ e.ev = .util (round8 v)) := by
+  obtain ⟨htag, _, scored, hs, hres⟩ := e2e_decideWith_utility h hmp rfl
+  obtain ⟨w, cs, hw⟩ := e2eTag_choquet htag
+  obtain ⟨v1, v2⟩ := e2e_utility_values hs hres
+  have key : ∀ (a : Alt Rat) (v : Rat), utilityValueOf resp.final.mp a = .ok v →
+      Spec.C03.choquetSpec choquetEpsOf a w = some v := by
+    intro a v hv
+    rw [hw] at hv
+    simp only [utilityValueOf] at hv
+    rw [← choquet_eq_spec, hv]; rfl
+  refine ⟨w, cs, hw, ?_, ?_⟩
+  · intro e he
+    obtain ⟨a, ha, v, hid, hv, hev⟩ := v1 e he
+    exact ⟨a, ha, hid, v, key a v hv, hev⟩
+  · intro a ha
+    obtain ⟨v, hv, e, he, hid, hev⟩ := v2 a ha
+    exact ⟨v, key a v hv, e, he, hid, hev⟩
+
+/- Full statement for the weighted sum (FALSE for the code — registered finding KF-C03-ws-ignores-weights, see
+   `ws_counterexample`): with `resp.final.mp = .ws wc`, every entry of `resp.result` is
+     `.util (round8 v)` with `Spec.C03.wsSpec a wc = some v` (Σ weight × signed value)
+   for a considered alternative `a` of the final state.  What the code computes instead: -/
+
+/-- **weighted sum, end to end — what the code reports**: the parameters that reach `Evaluate` are weighted
+    criteria `wc`; every reported value is `round8` of the plain sum of the signed values (value negated for
+    cost criteria) the alternative has on the criteria of `wc` in the final state — the weights are not used —;
+    every considered alternative is reported so; and this IS the defining formula `Spec.C03.wsSpec` whenever
+    every weight of the final parameters is 1.  Holds for any biases: e.g. a criterion added by concealment
+    enters with the weight the listener merged into `wc`, and is summed unweighted like the others. -/
+theorem decideWith_ws_value_partial (exp : Rat → Rat) (aspOrder : List (WCrit Rat) → List (WCrit Rat))
+    (req : Request Rat) (g : Int → Draws Rat) (resp : Response Rat) (wc₀ : List (WCrit Rat))
+    (h : decideWith exp aspOrder req g = .ok resp) (hmp : req.mp = some (.ws wc₀)) :
+    ∃ wc, resp.final.mp = .ws wc ∧
+      (∀ e ∈ resp.result, ∃ a ∈ resp.final.co, a.id = e.id ∧
+        ∃ vs, (wc.mapM fun c => a.signed c.crit) = .ok vs ∧ e.ev = .util (round8 (vs.foldl (· + ·) 0)) ∧
+          ((∀ c ∈ wc, c.w = 1) → Spec.C03.wsSpec a wc = some (vs.foldl (· + ·) 0))) ∧
+      (∀ a ∈ resp.final.co, ∃ vs, (wc.mapM fun c => a.signed c.crit) = .ok vs ∧
+        ∃ e ∈ resp.result, e.id = a.id ∧ e.ev = .util (round8 (vs.foldl (· + ·) 0))) := by
+  obtain ⟨htag, _, scored, hs, hres⟩ := e2e_decideWith_utility h hmp rfl
+  obtain ⟨wc, hwc⟩ := e2eTag_ws htag
+  obtain ⟨v1, v2⟩ := e2e_utility_values hs hres
+  have key : ∀ (a : Alt Rat) (v : Rat), utilityValueOf resp.final.mp a = .ok v →
+      ∃ vs, (wc.mapM fun c => a.signed c.crit) = .ok vs ∧ v = vs.foldl (· + ·) 0 ∧
+        ((∀ c ∈ wc, c.w = 1) → Spec.C03.wsSpec a wc = some v) := by
+    intro a v hv
+    rw [hwc] at hv
+    simp only [utilityValueOf] at hv
+    have hunit : (∀ c ∈ wc, c.w = 1) → Spec.C03.wsSpec a wc = some v := by
+      intro hw
+      rw [← ws_value_unit_weights_partial a wc hw, hv]; rfl
+    rw [ws_value_partial] at hv
+    cases hm : (wc.mapM fun c => a.signed c.crit) with
+    | error e => rw [hm] at hv; cases hv
+    | ok vs =>
+      rw [hm] at hv
+      exact ⟨vs, rfl, (Except.ok.inj hv).symm, hunit⟩
+  refine ⟨wc, hwc, ?_, ?_⟩
+  · intro e he
+    obtain ⟨a, ha, v, hid, hv, hev⟩ := v1 e he
+    obtain ⟨vs, hvs, rfl, hu⟩ := key a v hv
+    exact ⟨a, ha, hid, vs, hvs, hev, hu⟩
+  · intro a ha
+    obtain ⟨v, hv, e, he, hid, hev⟩ := v2 a ha
+    obtain ⟨vs, hvs, rfl, _⟩ := key a v hv
+    exact ⟨vs, hvs, e, he, hid, hev⟩
+
+/-- the three theorems for `Rdm.decide` are the instances `aspOrder := sortCriteriaDesc`, `g := genOf seeds`;
+    e.g. OWA: -/
+theorem decide_owa_value (exp : Rat → Rat) (req : Request Rat) (seeds : Seeds Rat) (resp : Response Rat)
+    (wc₀ : List (WCrit Rat)) (h : Rdm.decide exp req seeds = .ok resp) (hmp : req.mp = some (.owa wc₀)) :
+    ∃ wc, resp.final.mp = .owa wc ∧
+      ∀ e ∈ resp.result, ∃ a ∈ resp.final.co, a.id = e.id ∧
+        e.ev = .util (round8 (Spec.C03.owaSpec (a.vals.map (·.2)) (wc.map (·.w)))) := by
+  obtain ⟨wc, hwc, h1, _⟩ := decideWith_owa_value exp _ req _ resp wc₀ h hmp
+  exact ⟨wc, hwc, fun e he => by obtain ⟨a, ha, hid, _, hev⟩ := h1 e he; exact ⟨a, ha, hid, hev⟩⟩
+
+/-- hypotheses satisfiable, OWA: four known alternatives, three to choose from, a fatigue that fires (so the
+    values the formula is evaluated on are NOT those of the request), a reversal that does not, a disabled
+    entry: the model answers, and each of the three entries reports the OWA of the post-bias values -/
+example : ∃ resp wc, Rdm.decide id e2eExOwa e2eExSeeds = .ok resp ∧ resp.final.mp = .owa wc ∧
+    resp.result.length = 3 ∧
+    ∀ e ∈ resp.result, ∃ a ∈ resp.final.co, a.id = e.id ∧
+      e.ev = .util (round8 (Spec.C03.owaSpec (a.vals.map (·.2)) (wc.map (·.w)))) := by
+  obtain ⟨resp, h⟩ := e2e_ok_of_isOk (x := Rdm.decide id e2eExOwa e2eExSeeds) (by decide +kernel)
+  obtain ⟨wc, hwc, h1⟩ := decide_owa_value _ _ _ _ _ h rfl
+  obtain ⟨_, hco, scored, hs, hres⟩ := e2e_decideWith_utility h rfl rfl
+  refine ⟨resp, wc, h, hwc, ?_, h1⟩
+  have hl : scored.length = 3 := by
+    have := congrArg List.length ((e2e_scored_ok hs).2.2.trans hco)
+    rw [List.length_map] at this
+    exact this
+  have hperm := (e2e_ranking_wf (fun _ => Rat.lt_irrefl) scored (by
+    rw [(e2e_scored_ok hs).2.2, hco]; decide)).1.length_eq
+  rw [hres]
+  simpa [hl] using hperm
+
+/-- … weighted sum (same biases) -/
+example : ∃ resp wc, Rdm.decide id e2eExWs e2eExSeeds = .ok resp ∧ resp.final.mp = .ws wc ∧
+    ∀ e ∈ resp.result, ∃ a ∈ resp.final.co, a.id = e.id ∧
+      ∃ vs, (wc.mapM fun c => a.signed c.crit) = .ok vs ∧ e.ev = .util (round8 (vs.foldl (· + ·) 0)) := by
+  obtain ⟨resp, h⟩ := e2e_ok_of_isOk (x := Rdm.decide id e2eExWs e2eExSeeds) (by decide +kernel)
+  obtain ⟨wc, hwc, h1, _⟩ := decideWith_ws_value_partial _ _ _ _ _ _ h rfl
+  exact ⟨resp, wc, h, hwc, fun e he => by
+    obtain ⟨a, ha, hid, vs, hvs, hev, _⟩ := h1 e he; exact ⟨a, ha, hid, vs, hvs, hev⟩⟩
+
+/-- … Choquet integral: a constructed instance (see `e2eExChoquet`: the integral is not evaluable by
+    `decide +kernel`).  Two gain criteria with the full capacity table, three alternatives to choose from, one
+    of them with two equal values; the model answers for every seed table, and each entry reports the
+    specification's Choquet integral of its alternative -/
+example (seeds : Seeds Rat) : ∃ resp w cs, Rdm.decide id e2eExChoquet seeds = .ok resp ∧
+    resp.final.mp = .choquet w cs ∧
+    ∀ e ∈ resp.result, ∃ a ∈ resp.final.co, a.id = e.id ∧
+      ∃ v, Spec.C03.choquetSpec choquetEpsOf a w = some v ∧ e.ev = .util (round8 v) := by
+  have hp : pipeline id e2eExChoquet (genOf seeds) = .ok (e2eExChoquetFin, []) := rfl
+  have hval : ∀ a ∈ e2eExChoquetFin.co, (choquetValue choquetEpsOf a e2eExCap).isOk = true := by
+    intro a ha
+    have hasc : ascendingVals a = a.vals := by
+      have : ∀ a ∈ e2eExChoquetFin.co, a.vals.Pairwise (fun x y => decide (x.2 ≤ y.2) = true) := by
+        decide +kernel
+      exact List.mergeSort_of_pairwise (this a ha)
+    have hties : ∀ a ∈ e2eExChoquetFin.co, ∀ x ∈ a.vals, ∀ y ∈ a.vals,
+        Spec.C03.rabs (x.2 - y.2) ≤ (choquetEpsOf : Rat) → x.2 = y.2 := by decide +kernel
+    have hfull : ∀ a ∈ e2eExChoquetFin.co, ∀ n < a.vals.length,
+        (e2eExCap.get? (criterionKey ((a.vals.drop n).map (·.1)))).isSome = true := by decide +kernel
+    have hs : ∀ a ∈ e2eExChoquetFin.co,
+        (choquetTextbook (fun s => e2eExCap.get? (criterionKey s)) a.vals 0).isSome = true := by
+      decide +kernel
+    have := choquet_eq_textbook_of_capacities choquetEpsOf a e2eExCap (hties a ha)
+      (by rw [hasc]; exact hfull a ha)
+    rw [hasc] at this
+    have h2 := hs a ha
+    rw [← this] at h2
+    cases hc : choquetValue choquetEpsOf a e2eExCap with
+    | ok v => rfl
+    | error e => rw [hc] at h2; cases h2
+  have hsc : (e2eScored e2eExChoquetFin).isOk = true := by
+    apply e2e_mapM_isOk
+    intro a ha
+    obtain ⟨v, hv⟩ := e2e_ok_of_isOk (hval a ha)
+    show (utilityValueOf e2eExChoquetFin.mp a >>= fun v => pure (⟨a.id, v⟩ : Scored Rat)).isOk = true
+    have : utilityValueOf e2eExChoquetFin.mp a = choquetValue choquetEpsOf a e2eExCap := rfl
+    rw [this, hv]; rfl
+  obtain ⟨scored, hs⟩ := e2e_ok_of_isOk hsc
+  have he : evaluateWith sortCriteriaDesc (genOf seeds) e2eExChoquetFin
+      = .ok ((ranking scored).map e2eOfRankEntry) := by
+    show (utilityEvaluate e2eExChoquetFin >>= fun r =>
+      pure (r.map fun e => (⟨e.id, .util e.v, e.links⟩ : Linked (Eval Rat)))) = _
+    rw [e2e_utilityEvaluate_eq, hs]; rfl
+  have h : Rdm.decide id e2eExChoquet seeds = .ok ⟨_, [], e2eExChoquetFin⟩ := e2e_decideWith_of hp he
+  obtain ⟨w, cs, hw, h1, _⟩ := decideWith_choquet_value _ _ _ _ _ _ _ h rfl
+  exact ⟨_, w, cs, h, hw, h1⟩
 
 end Rdm.Props.C03
